@@ -15,6 +15,7 @@ def run(ctx):
 
 def run_chapoly(ctx, lens, aads, label='C10'):
     nseg = 3
+    wseg = tuple(lens[k % len(lens)] for k in (1, 2, 3))
     ctx.note_source('lib/x86_64/chacha20_poly1305.c')
     ctx.bounds.update({'unit': 'init/update_enc/update_dec/finalize_chacha20_poly1305_sse (direct streaming API) of chacha20_poly1305.c',
                        'segments': '%d segments, each length in %s (every combination), AAD length in %s, both directions; message/AAD/key bytes and the stale context symbolic' % (nseg, lens, aads),
@@ -34,13 +35,13 @@ def run_chapoly(ctx, lens, aads, label='C10'):
     basejw = os.path.join(ctx.scratch, 'cpjw.gb')
     gotocc(ctx, h, basejw, defs=['-DNSEG=%d' % nseg, '-DMAXSEG=%d' % max(lens), '-DJOBPATH', '-DWITNESS'])
     work = [(segs, a, e, False) for segs in itertools.product(lens, repeat=nseg) for a in aads for e in (0, 1)]
-    work.append(((lens[1], lens[2], lens[3]), aads[-1], 1, True))
+    work.append((wseg, aads[-1], 1, True))
     # the one-shot job entry point on the same work items (total length = sum of the segments): both must equal the same specification
     totals = {}
     for segs in itertools.product(lens, repeat=nseg):
         totals.setdefault(sum(segs), segs)
     work += [(segs, a, e, 'job') for segs in totals.values() for a in aads for e in (0, 1)]
-    work.append(((lens[1], lens[2], lens[3]), aads[-1], 0, 'jobwit'))
+    work.append((wseg, aads[-1], 0, 'jobwit'))
     flags = ['--unwinding-assertions', '--drop-unused-functions', '--no-malloc-may-fail', '--object-bits', '12']
 
     def one(w):
